@@ -95,7 +95,11 @@ _re_urlsafe = re.compile("^[a-zA-Z0-9-_~]+$")
 
 
 def __is_urlsafe_characters(s: bytes | str) -> bool:
-    return bool(_re_urlsafe.match(to_str(s)))
+    try:
+        return bool(_re_urlsafe.match(to_str(s)))
+    except UnicodeDecodeError:
+        # octets that are not text: the payload is detached
+        return False
 
 
 def _extract_compact(value: bytes, payload: t.Optional[bytes | str] = None) -> t.Any:
